@@ -100,6 +100,8 @@ type AnyProp interface {
 	PropSubject() string
 	run(t *testing.T)
 	replay(raw json.RawMessage) Outcome
+	// Fuzz runs one generated case (for rapid.MakeFuzz targets under native go fuzzing).
+	Fuzz(rt *rapid.T)
 }
 
 func (p Prop[C]) PropID() string      { return p.ID }
@@ -167,11 +169,21 @@ func (c *collector) record(subject string, cas any, o Outcome) {
 		s.Counters[k] += v
 	}
 	// Samples: the first non-trivial case, then deterministic reservoir by evaluation number.
-	if o.NonTrivial && o.Fail == "" {
+	if o.NonTrivial && o.Fail == "" && (len(s.Samples) < maxSamples || s.NonTrivial%97 == 0) {
+		var smp any
+		if raw, err := json.Marshal(cas); err == nil {
+			if len(raw) > 6000 {
+				smp = string(raw[:6000]) + "...(truncated)"
+			} else {
+				smp = json.RawMessage(raw)
+			}
+		} else {
+			smp = fmt.Sprintf("%+v", cas)
+		}
 		if len(s.Samples) < maxSamples {
-			s.Samples = append(s.Samples, cas)
-		} else if s.NonTrivial%97 == 0 {
-			s.Samples[1+(s.NonTrivial/97)%(maxSamples-1)] = cas
+			s.Samples = append(s.Samples, smp)
+		} else {
+			s.Samples[1+(s.NonTrivial/97)%(maxSamples-1)] = smp
 		}
 	}
 }
@@ -327,6 +339,16 @@ func (p Prop[C]) run(t *testing.T) {
 			rt.Fatalf("%s %s: %s", p.ID, p.Subject, o.Fail)
 		}
 	})
+}
+
+// Fuzz draws one case from the fuzzer-provided bit stream and fails on a violation.
+func (p Prop[C]) Fuzz(rt *rapid.T) {
+	c := p.Gen(rt)
+	o := p.exec(c)
+	if o.Fail != "" {
+		writeReplay(p.replayPath(), p.ID, p.Subject, o.Fail, c)
+		rt.Fatalf("%s %s: %s", p.ID, p.Subject, o.Fail)
+	}
 }
 
 func (p Prop[C]) replay(raw json.RawMessage) Outcome {
